@@ -41,19 +41,7 @@ def gen_program(rng, n):
     return prog
 
 
-def run_program(h, prog, warm, rng_seed, order=None):
-    """execute in a fresh process after a warm-up; returns the list of observations per step + pair matrices"""
-    import random
-    sess = markers.Session(h)
-    for t in warm:
-        if isinstance(t, str):
-            sess.parse(t)
-        else:
-            k = t[0]
-            try:
-                sess.op(k, *t[1:])
-            except Exception:
-                pass
+def exec_program(sess, prog, order):
     regs = {}
     idxs = order or list(range(len(prog)))
     pending = list(idxs)
@@ -78,6 +66,25 @@ def run_program(h, prog, warm, rng_seed, order=None):
                 break
         else:
             break
+    return regs
+
+
+def run_program(h, prog, warm, rng_seed, order=None, warm_prog=None):
+    """execute in a fresh process after a warm-up; returns the list of observations per step + pair matrices"""
+    import random
+    sess = markers.Session(h)
+    for t in warm:
+        if isinstance(t, str):
+            sess.parse(t)
+        else:
+            k = t[0]
+            try:
+                sess.op(k, *t[1:])
+            except Exception:
+                pass
+    if warm_prog:
+        exec_program(sess, warm_prog, None)
+    regs = exec_program(sess, prog, order)
     obs = []
     for i in range(len(prog)):
         r = regs.get(i)
@@ -99,6 +106,60 @@ def run_program(h, prog, warm, rng_seed, order=None):
             rel[(i, j)] = dump(sess.ask(['rel', str(regs[i]), str(regs[j])]))
     sess.close()
     return obs, rel
+
+
+def respell_version(v):
+    """the same version with one trailing zero segment more or less"""
+    if v.endswith('.0') and v.count('.') >= 1 and v not in ('0.0',):
+        return v[:-2]
+    return v + '.0'
+
+
+def respell(prog):
+    """the same program with every version literal spelled with other trailing zeros (denotes the same markers)"""
+    import re
+    out = []
+    for st in prog:
+        if st[0] == 'parse':
+            t = st[1]
+            m = re.match(r"^(python_full_version|implementation_version|python_version) (in|not in|<|<=|>|>=|==|!=) '([0-9. ]+)'$", t)
+            if m and m.group(1) != 'python_version':
+                t = "%s %s '%s'" % (m.group(1), m.group(2), ' '.join(respell_version(v) for v in m.group(3).split()))
+            out.append(('parse', t))
+        elif st[0] in ('simppv', 'cplxpv'):
+            f = lambda b: b if b == 'U' else [b[0], S(respell_version(unS(b[1])))]
+            out.append((st[0], st[1], f(st[2]), f(st[3])))
+        else:
+            out.append(st)
+    return out
+
+
+def family_program(rng):
+    """markers sharing their root variable with different subtrees, and versions under two spellings: what a
+    history-dependent tie-break (ids instead of structure) or a missing normalisation would make observable"""
+    # the tails sort after the root in the variable order, so the root stays the root and the tails are its children
+    root, pool = rng.choice([
+        ("extra == 'alpha'", ["extra == 'beta'", "extra == 'gamma'", "extra != 'delta'", "extra == 'beta' or extra == 'gamma'"]),
+        ("extra != 'alpha'", ["extra == 'beta'", "extra == 'gamma'", "extra != 'delta'", "extra == 'zeta'"]),
+        ("'lin' in sys_platform", ["extra == 'beta'", "extra == 'gamma'", "'x' in sys_platform", "'y' in sys_platform"]),
+        ("os_name == 'nt'", ["sys_platform == 'linux'", "platform_machine != 'arm64'", "extra == 'beta'", "'x' in platform_release"]),
+        ("python_full_version >= '3.8'", ["extra == 'beta'", "sys_platform == 'linux'", "platform_machine != 'arm64'", "os_name in 'nt posix'"]),
+    ])
+    tails = rng.sample(pool, 3)
+    prog = [('parse', t) for t in tails]
+    for t in tails:
+        prog.append(('parse', "%s and %s" % (root, t)))
+    for t in tails[:2]:
+        prog.append(('parse', "%s or %s" % (root, t)))
+    v = rng.choice(['3.10', '3.9', '3.8', '4'])
+    prog.append(('parse', "python_full_version < '%s'" % v))
+    k = len(prog)
+    prog.append(('cplxpv', rng.randrange(3), ['I', S('3.7')], ['E', S(v + '.0')]))
+    prog.append(('cplxpv', k - 1, 'U', ['I', S(v + '.0.0')]))
+    prog.append(('simppv', k - 1, ['I', S('3.6.0')], ['E', S(v + '.0')]))
+    prog.append(('and', 3, 4))
+    prog.append(('or', 4, 5))
+    return prog
 
 
 def warmups(rng, prog, kind):
@@ -133,14 +194,14 @@ def run(ctx):
     quick = ctx.tier == 'quick'
     ctx.extra['rule'] = ('(1) programs of 12-25 marker operations (parse incl. in-lists and trailing-zero spellings, and/or/not, simplify_extras, '
                          'simplify/complexify_python_versions) run in fresh processes: alone, after a random warm-up, after a warm-up that interns the same '
-                         'versions under other spellings first, and with independent steps permuted; every observation (raw kind() dump incl. un-normalised '
+                         'versions under other spellings first, with independent steps permuted / reversed, and after the same program with every version literal spelled with other trailing zeros; one program in three is a family (markers sharing their root variable over different subtrees, bounds under two spellings); every observation (raw kind() dump incl. un-normalised '
                          'segments, Display, DNF, is_true/false, evaluate, ==/cmp/hash between results) must coincide. (2) raw node ids through the '
                          'verification hook: id equality <=> equal dumps, id^1 <=> negated dump, complement bit = the extracted store model\'s prediction, '
                          'repeating an operation adds no node, stored versions are normalised. non-trivial = distinct programs / distinct non-constant dumps')
     # ---- (1) cross-history, fresh processes
     n_prog = 12 if quick else 60
     for p in range(n_prog):
-        prog = gen_program(ctx.rng, ctx.rng.randint(12, 25))
+        prog = gen_program(ctx.rng, ctx.rng.randint(12, 25)) if p % 3 else family_program(ctx.rng)
         base, rel0 = run_program(h, prog, [], 7)
         ctx.evaluations += 1
         ctx.nontrivial(('prog', tuple(str(s) for s in prog)))
@@ -148,8 +209,13 @@ def run(ctx):
         perm = list(range(len(prog)))
         ctx.rng.shuffle(perm)
         variants.append(('independent steps permuted', [], perm))
+        variants.append(('independent steps in reverse order', [], list(reversed(range(len(prog))))))
+        variants.append(('the same program with other version spellings first', 'respell', None))
         for name, warm, order in variants:
-            obs, rel = run_program(h, prog, warm, 7, order)
+            if warm == 'respell':
+                obs, rel = run_program(h, prog, [], 7, None, warm_prog=respell(prog))
+            else:
+                obs, rel = run_program(h, prog, warm, 7, order)
             ctx.oracle_cases += 1
             for i, (a, b) in enumerate(zip(base, obs)):
                 if a != b:
